@@ -251,7 +251,6 @@ def run(ctx):
     pa = ctx.fn("lace::debugger::command::Command::<'a>::parse_arguments")
     sws = list(kit.discr_switches(pa, CN))
     ctx.need(sws, "match on CommandName in parse_arguments")
-    sb, place, targets, oth = sws[0]
     PLAN = {
         "next_positive_integer_or_default": ("Integer", True),
         "next_integer": ("Integer", False),
@@ -261,17 +260,25 @@ def run(ctx):
         "next_memory_location_or_default": ("Address+", True),
         "get_rest": ("Rest", False),
     }
-    plans = {}
-    for vi, tb in targets.items():
-        region = kit.dominated_region(pa, tb)
-        calls = []
-        for b in sorted(region, key=lambda x: (len(pa.dominators()[x]), x)):
-            t = pa.term(b)
-            if t["k"] == "call":
-                m = (callee_of(t) or "").rsplit("::", 1)[-1]
-                if m in PLAN:
-                    calls.append(PLAN[m])
-        plans[vnames[vi]] = calls
+    # the match that builds the command (parse_arguments may also match on the name elsewhere, e.g. for an arity table): the one whose arms
+    # call the argument readers
+    best = None
+    for sb, place, targets, oth in sws:
+        plans_ = {}
+        for vi, tb in targets.items():
+            region = kit.dominated_region(pa, tb)
+            calls = []
+            for b in sorted(region, key=lambda x: (len(pa.dominators()[x]), x)):
+                t = pa.term(b)
+                if t["k"] == "call":
+                    m = (callee_of(t) or "").rsplit("::", 1)[-1]
+                    if m in PLAN:
+                        calls.append(PLAN[m])
+            plans_[vnames[vi]] = calls
+        n_ = sum(len(v) for v in plans_.values())
+        if best is None or n_ > best[0]:
+            best = (n_, plans_)
+    plans = best[1]
     for r in rows:
         got, _ = resolve(r["name"].split())
         if got is None:
